@@ -70,7 +70,9 @@ LEVEL_NOTE = ("Trusted: Lean kernel, harness + watchdog, the python framing pars
               "exercised: the Upgrade: websocket hand-off in HttpServer::serve (HttpServer.cpp ~60-65, _wsserver is never linked in the "
               "harness; belongs to C11), CORS headers, socket timeouts/select and partial arrival (EOF only). Transfer-Encoding is chunked when its last "
               "coding is `chunked`, ASCII case-insensitively (fix 7dcf721; String::toLowerCase is UTF-8 aware, the model ASCII: values "
-              "with bytes >= 0x80 are not generated); gzip/deflate codings are not decoded. Folded header lines are joined to the "
+              "with bytes >= 0x80 are not generated); a request with a Transfer-Encoding whose last coding is not chunked (gzip, `chunked, gzip`, xchunked, empty) is "
+              "dropped, the connection closed (4dff910, theorem dispatch_requires_framed_transfer_encoding); gzip/deflate codings before chunked are not decoded. "
+              "Repeated header fields keep the last value (single-valued Dic interface; outside_findings.txt): the oracle gives no opinion on streams that repeat Content-Length/Transfer-Encoding. Folded header lines are joined to the "
               "field value with one space (350c8ee) and received empty values are kept (988a64d); query tokens without `=` are "
               "dropped by Url::parseQuery by design (outside_findings.txt). Chunk framing is validated (4dbedbe, d0ace7d): size lines are 1-8 hex digits (<= 0x7fffffff) + blanks/;ext, each chunk must "
               "end in CRLF, trailer fields are not supported (such a request is dropped). "
@@ -447,6 +449,18 @@ def gen(rng, tier):
         c.append("srv " + hexs(x))
         st["req_mutated"] += 1
         st["srv_streams"] += 1
+    # a Transfer-Encoding whose last coding is not chunked: no determinable length (RFC 7230 3.3.3 rule 3), the request must
+    # not be dispatched (neither without body nor with a Content-Length body) and what follows must not run as a request
+    smug = b"GET /smuggled HTTP/1.1\r\nHost: h\r\n\r\n"
+    for te in [b"gzip", b"chunked, gzip", b"xchunked", b"identity", b"", b"chunked, identity", b"deflate,", b"chunke", b"chunked d", b"GZIP"]:
+        for cl in [None, b"3", b"0", b"%d" % len(smug)]:
+            for body in [smug, b"5\r\nhello\r\n0\r\n\r\n" + smug]:
+                x = (b"POST /te HTTP/1.1\r\nHost: h\r\nTransfer-Encoding: " + te + b"\r\n"
+                     + (b"Content-Length: " + cl + b"\r\n" if cl is not None else b"") + b"\r\n" + body)
+                c.append("srv " + hexs(x))
+                c.append("req " + hexs(x))
+                st["req_mutated"] += 1
+                st["srv_streams"] += 1
     cases.append(c)
 
     # --- chunked bodies with odd chunk-size lines
@@ -769,7 +783,7 @@ def _ref_request(s):
     if te is not None and any(c >= 0x80 for c in te):
         return None
     if te is not None and te.lower().split(b",")[-1].strip(b" \t") != b"chunked":
-        te = None          # the last coding is not chunked: Content-Length (or nothing) frames the body
+        return None        # the last coding is not chunked: no determinable length, not a well-formed request
     if te is not None:
         if b"Content-Length" in hs and not re.match(rb"^[0-9]{1,9}\Z", hs[b"Content-Length"]):
             return None
@@ -968,6 +982,10 @@ def _frame(s):
     # transfer-coding names are case-insensitive; the body is chunked when the last coding is chunked (RFC 7230 3.3.1)
     chunked = te is not None and te.lower().split(b",")[-1].strip(b" \t\r\n") == b"chunked"
     body = b""
+    if te is not None and not chunked:
+        # a request whose last transfer coding is not chunked has no determinable length (RFC 7230 3.3.3 rule 3:
+        # the server answers 400 and closes): neither "no body" nor Content-Length frames it, nothing may be dispatched
+        return "incomplete"
     if cl is not None and not (re.fullmatch(rb"[0-9]{1,10}", cl) and int(cl) < 2 ** 31):
         # a sign, other characters, or more than fits a length: the framing is unknown, nothing may be dispatched
         return "incomplete"
